@@ -6,12 +6,14 @@ import (
 	"context"
 	"crypto/sha256"
 	"encoding/hex"
+	"errors"
 	"fmt"
 	"hash"
 	"io"
 	"os"
 	"sort"
 	"sync"
+	"sync/atomic"
 	"time"
 
 	"github.com/opencontainers/go-digest"
@@ -97,19 +99,31 @@ func (l *Log) Strings() []string {
 	return out
 }
 
+// Fault makes the K-th call (0-based) of one kind on one end fail: End is "S.send",
+// "S.recv", "R.send" or "R.recv". The zero value injects nothing.
+type Fault struct {
+	End string `json:"end,omitempty"`
+	K   int    `json:"k,omitempty"`
+}
+
+var ErrInjected = errors.New("xfer: injected stream failure")
+
 type Conn struct {
-	ctx  context.Context
-	name string
-	in   chan []byte
-	out  chan []byte
-	log  *Log
-	once sync.Once
+	failSend, failRecv int // call index that fails, -1 = none
+	broke              func()
+	nSend, nRecv       atomic.Int64
+	ctx                context.Context
+	name               string
+	in                 chan []byte
+	out                chan []byte
+	log                *Log
+	once               sync.Once
 }
 
 func Pair(ctx context.Context, capacity int, log *Log) (s, r *Conn) {
 	c1 := make(chan []byte, capacity)
 	c2 := make(chan []byte, capacity)
-	return &Conn{ctx: ctx, name: "S>R", in: c2, out: c1, log: log}, &Conn{ctx: ctx, name: "R>S", in: c1, out: c2, log: log}
+	return &Conn{ctx: ctx, name: "S>R", in: c2, out: c1, log: log, failSend: -1, failRecv: -1}, &Conn{ctx: ctx, name: "R>S", in: c1, out: c2, log: log, failSend: -1, failRecv: -1}
 }
 
 func (c *Conn) Context() context.Context { return c.ctx }
@@ -124,6 +138,10 @@ func (c *Conn) SendMsg(m interface{}) (err error) {
 	raw, err := p.MarshalVT()
 	if err != nil {
 		return err
+	}
+	if int(c.nSend.Add(1))-1 == c.failSend {
+		c.broke() // a stream call that failed means the stream is gone, for both ends
+		return ErrInjected
 	}
 	defer func() {
 		if r := recover(); r != nil {
@@ -145,6 +163,10 @@ func (c *Conn) RecvMsg(m interface{}) error {
 	p, ok := m.(*types.Packet)
 	if !ok {
 		return fmt.Errorf("unexpected message %T", m)
+	}
+	if int(c.nRecv.Add(1))-1 == c.failRecv {
+		c.broke()
+		return ErrInjected
 	}
 	select {
 	case <-c.ctx.Done():
@@ -168,10 +190,29 @@ func (r Result) OK() bool { return r.SendErr == nil && r.RecvErr == nil && !r.Ti
 // Run performs one transfer. The transport closes a direction when the call
 // that writes to it returns (as the repository's own tests and gRPC do).
 func Run(src fsutil.FS, dest string, opt fsutil.ReceiveOpt, progress func(int, bool)) Result {
+	return RunFault(src, dest, opt, progress, Fault{})
+}
+
+// RunFault is Run with one injected stream failure.
+func RunFault(src fsutil.FS, dest string, opt fsutil.ReceiveOpt, progress func(int, bool), f Fault) Result {
 	ctx, cancel := context.WithCancel(context.Background())
 	defer cancel()
 	log := &Log{}
-	s, r := Pair(ctx, 32, log)
+	// the stream has a context of its own: a failed stream call breaks the stream, it does not cancel the callers
+	sctx, scancel := context.WithCancel(ctx)
+	defer scancel()
+	s, r := Pair(sctx, 32, log)
+	s.broke, r.broke = scancel, scancel
+	switch f.End {
+	case "S.send":
+		s.failSend = f.K
+	case "S.recv":
+		s.failRecv = f.K
+	case "R.send":
+		r.failSend = f.K
+	case "R.recv":
+		r.failRecv = f.K
+	}
 	res := Result{Log: log}
 	var wg sync.WaitGroup
 	wg.Add(2)
@@ -179,11 +220,17 @@ func Run(src fsutil.FS, dest string, opt fsutil.ReceiveOpt, progress func(int, b
 		defer wg.Done()
 		defer s.CloseSend()
 		res.SendErr = fsutil.Send(ctx, s, src, progress)
+		if f.End != "" && res.SendErr != nil {
+			scancel() // an aborted call tears the stream down, as a transport does
+		}
 	}()
 	go func() {
 		defer wg.Done()
 		defer r.CloseSend()
 		res.RecvErr = fsutil.Receive(ctx, r, dest, opt)
+		if f.End != "" && res.RecvErr != nil {
+			scancel()
+		}
 	}()
 	done := make(chan struct{})
 	go func() { wg.Wait(); close(done) }()
